@@ -24,4 +24,6 @@ EffKeep(c) == (IF c.yaml # "" THEN c.yaml ELSE c.env) \in TrueSpellings       \*
 
 \* received-support of a listener: on unless  no-received: true
 EffRecv(noReceived) == ~noReceived
+\* ... from the key as written in the listens entry: "true", "false", or "absent"
+EffRecvKey(t) == t # "true"
 =============================================================================
